@@ -14,8 +14,8 @@ claim('C03', 'exploration', 'bounded-exhaustive literal enumeration against a re
       'Trusts: the 24 representatives stand for their byte classes (other bytes of a class are only sampled); bodies the statement leaves open (NUL escapes, unterminated ${) are executed but not judged.')
 
 claim('C09', 'exploration', 'bounded-exhaustive call-sequence enumeration checked against an executable reference store after every call (history + model monitor, ASan+UBSan build)',
-      'All call sequences to the depth bound over a 64-call alphabet (every setter family, list set/append, bulk set good/bad, section add/remove by index/title/path, '
-      'wrong-type / bad-index / unknown-name calls) from the initial and three parsed states run against the real library; after every call the return value and the whole '
+      'All call sequences to the depth bound over the call alphabet (93 core calls enumerated to depth 3; about 60 more - simple options, odd / empty / long titles, NULL and long strings, far indices, self-owned titles - to depth 2 and sampled at depth 3) (every setter family, list set/append, bulk set good/bad, section add/remove by index/title/path, '
+      'wrong-type / bad-index / unknown-name calls) from the initial and five parsed states (one with 40 list elements and 42 sections, one with 1022 list elements) run against the real library; after every call the return value and the whole '
       'tree are compared with a 150-line abstract store. Order-dependent interactions (first append on pristine defaults, remove then add) need sequence enumeration, which is this level.',
       'Trusts: the abstract store (model_store.py) as the reading of the statement; unspecified calls (index gaps, setmulti of several values on a scalar, addtsec on untitled sections) end the judged prefix.')
 
@@ -26,7 +26,7 @@ claim('C10', 'fault_enumeration', 'complete enumeration of (option kind x prepar
 
 claim('C11', 'exploration', 'random trees x generated and systematically broken paths; by-path API compared with a C walk using single-level accessors only (differential monitor on real executions, ASan+UBSan build, hang watchdog)',
       'For random trees (titles with | \' \\ = blanks, empty title) every option/section is addressed through generated path strings in all qualifier forms and the pointer returned by '
-      'cfg_getopt/cfg_getsec is compared (by position) with step-by-step navigation; by-path setters and cfg_rmsec must change exactly that object; 12 classes of broken paths must yield '
+      'cfg_getopt/cfg_getsec is compared (by position) with step-by-step navigation; by-path setters and cfg_rmsec must change exactly that object; 16 classes of broken paths must yield '
       'not-found, terminate and change nothing. The path mini-language is small but has its own tokenizer; randomised trees with systematic path derivation is the level that reaches its corners.',
       'Trusts: the generator\'s knowledge of which broken variants cannot resolve (names with a suffix that does not exist, indices >= size, ...); trees are random, not exhaustive.')
 
@@ -34,7 +34,7 @@ claim('C05', 'exploration', 'metamorphic print->parse->print relations between e
       'States are produced by random accepted texts followed by random setter sequences (strings and titles over all bytes 1..255, forced quotes, backslashes, $, braces, comment markers, '
       'newlines); the printed text must be accepted by a fresh context of the same schema and give an equal tree, the second print must equal the first (annotations off) and the third the second. '
       'Both sides of every comparison are the library itself, so the oracle cannot be stricter than the code; randomised exploration is the level because the state space is unbounded.',
-      'Trusts: the tree comparison (strings bytewise, ints/bools exact, floats after %f); states excluded by the statement are not generated (functions, pointers, deprecated, NULL list strings, removed single sections).')
+      'Trusts: the tree comparison (strings bytewise, ints/bools exact, floats after %f); states excluded by the statement are not generated (functions, pointers, deprecated options, removed single sections, NULL over a non-NULL string default).')
 
 claim('C19', 'exploration', 'structural scan of the printed text against the tree walk plus self-similarity (section body == print of that section) and callback-differential relations on real executions (ASan+UBSan build)',
       'For random schemas/states, filters (name-hash predicates) at random subsets of section instances and print callbacks on random options, the output of cfg_print is scanned into '
@@ -43,20 +43,20 @@ claim('C19', 'exploration', 'structural scan of the printed text against the tre
       'Trusts: the line scanner (values are drawn from an alphabet that keeps one record per line); the effective-filter rule (own, else nearest ancestor) is taken from the statement.')
 
 claim('C15', 'exploration', 'metamorphic insertion: every token boundary x every comment/blank form, result compared with the uncommented run of the real code; annotation probes (ASan+UBSan build)',
-      'For accepted and token-mutated rejected texts, each of 14 comment/blank forms (incl. empty, marker-only, multi-line, comments full of quotes/braces) is inserted at every token boundary with annotation '
+      'For accepted and token-mutated rejected texts, each of 25 comment/blank forms (incl. empty, marker-only, multi-line, comments full of quotes/braces) is inserted at every token boundary with annotation '
       'support on and off; return code and a hash of the values-only tree must equal the uncommented run. Annotation probes check getter, print and re-parse for comments placed immediately before scalar '
       'and non-empty list assignments. The law is metamorphic over insertion points, so exhaustive insertion over sampled texts is the fitting level.',
       'Trusts: the values-only tree hash computed in the driver through public getters; annotation probes cover top-level items only.')
 
 claim('C08', 'exploration', 'bounded-exhaustive history enumeration, one process per history, probe results compared with their fresh-process results (differential monitor; scanner-state hook for evidence)',
-      'All histories to the length bound over 16 prior events (every kind of aborted parse, include failures at depth 1/3/limit, range failures, root free/re-init, second context), each in its own '
-      'process, are followed by 11 probe parses into contexts untouched by the history; return code, full tree and diagnostics (file, line, text) must equal the probe\'s result in a fresh process. '
+      'All histories to the length bound over 30 prior events (every kind of aborted parse, include failures at depth 1/3/limit, range failures, root free/re-init, second context), each in its own '
+      'process, are followed by 15 probe parses into contexts untouched by the history; return code, full tree and diagnostics (file, line, text) must equal the probe\'s result in a fresh process. '
       'Interleavings over two live contexts are compared with solo runs. The property is about orderings of calls over process-global scanner state, which only history enumeration reaches.',
       'Trusts: the probe set as a detector of residual state (start condition, buffer stack, include stack, scratch buffer, errno); the residual states actually reached are listed in the evidence via the LIBCONFUSE_VERIF hook.')
 
 claim('C13', 'exploration', 'flat-vs-include-split differential on the real code over generated file trees, position probes, and an enumerated failure matrix with descriptor/include-depth monitors (ASan+UBSan build)',
       'Accepted texts are split at item boundaries (also inside section bodies) into random include trees of depth 1..10, addressed relative, absolute or via search path, and must parse to the same tree as the flat text '
-      'with include depth 0 and descriptors balanced afterwards; errors placed after / inside includes must carry the right file and line; 13 kinds of failing include, 12+ in a row, must each be a reported parse error '
+      'with include depth 0 and descriptors balanced afterwards; errors placed after / inside includes must carry the right file and line; 18 kinds of failing include, 12+ in a row, must each be a reported parse error '
       'without descriptor growth, after which a good include into the same and a new context still works. Randomised differential exploration plus an enumerated failure matrix is the level that fits: the input space is unbounded, the failure kinds are few.',
       'Trusts: /proc/self/fd counting and the allocmon FILE table as descriptor monitors; no permission-based failures (root).')
 
